@@ -311,7 +311,10 @@ pub fn run_impl(_ctx: &mut Ctx, case: &Case) -> Value {
                         diags.push(diag_json(f, &d));
                     }
                 }
-                json!({"changes": changes_json, "ctx": {"files": dump}, "detected_count": detected, "run": {"diags": diags}, "exit": if has_error { 1 } else { 0 }})
+                // the keys of the map `run` returns: the files `main` prints in the report (a key with an empty list included)
+                let mut report_files: Vec<String> = v.keys().map(|f| f.display().to_string()).collect();
+                report_files.sort();
+                json!({"changes": changes_json, "ctx": {"files": dump}, "detected_count": detected, "run": {"diags": diags, "files": report_files}, "exit": if has_error { 1 } else { 0 }})
             }
         }
     }));
